@@ -15,6 +15,7 @@ type VerifSyncState struct {
 	SyncedToWALEnd        bool
 	SyncedSinceCheckpoint bool
 	TruncatePassiveFailed bool
+	CheckpointUnresolved  bool
 }
 
 // VerifSyncState returns a copy of the current in-memory sync state.
@@ -26,6 +27,7 @@ func (db *DB) VerifSyncState() VerifSyncState {
 		SyncedToWALEnd:        db.syncState.syncedToWALEnd,
 		SyncedSinceCheckpoint: db.syncState.syncedSinceCheckpoint,
 		TruncatePassiveFailed: db.syncState.truncatePassiveFailed,
+		CheckpointUnresolved:  db.syncState.checkpointUnresolved,
 	}
 }
 
